@@ -98,6 +98,13 @@ Theorem C08_add_or_update_node_keeps_inv : forall c o,
 Proof. exact add_or_update_node_inv. Qed.
 Print Assumptions C08_add_or_update_node_keeps_inv.
 
+Theorem C08_node_event_keeps_inv : forall c v,
+  Rep c -> sc (nv_base v) <> None ->
+  Rep (node_event c v) /\
+  exists N, c_nodes (node_event c v) !! nv_id v = Some N /\ n_has_node N = true /\ n_alloc N = obj_alloc v.
+Proof. exact node_event_inv. Qed.
+Print Assumptions C08_node_event_keeps_inv.
+
 (* --- converges_to_final_objects (main): all histories of pod / node (incl. remove and
        re-add) / PodGroup / queue notifications, any cross-object order --- *)
 Theorem C08_converges_to_final_objects : forall eps h h',
@@ -160,6 +167,19 @@ Theorem C08_remove_node_prefix_breaks_inv :
   exists c n, cache_invb c = true /\ cache_invb (remove_node_prefix c n) = false.
 Proof. exact remove_node_prefix_breaks_inv. Qed.
 Print Assumptions C08_remove_node_prefix_breaks_inv.
+
+(* --- finding repaired by d373588: setOversubscription as it was kept the amount of a
+       removed oversubscription annotation --- *)
+Theorem C08_converges_over_prefix_refuted :
+  exists h, view_eqb (run_over_prefix eps0 empty_cache h) (build eps0 (final_objects h)) = false /\
+            cache_invb (run_over_prefix eps0 empty_cache h) = true.
+Proof. exact converges_over_prefix_refuted. Qed.
+Print Assumptions C08_converges_over_prefix_refuted.
+
+Example C08_over_history_fixed :
+  view_eqb (run eps0 empty_cache over_history) (build eps0 (final_objects over_history)) = true.
+Proof. exact over_history_fixed. Qed.
+Print Assumptions C08_over_history_fixed.
 
 (* --- non-vacuity --- *)
 Example C08_f4_history_fixed :
